@@ -160,6 +160,9 @@ CONTROLS = [
     ('s2-grammar-function-exported', 'S2', 'mir', 'source_text', [(PARSER + 'source_text/system_verilog_source_text.rs', 'pub(crate) fn source_text(s: Span)', 'pub fn source_text(s: Span)', 1)]),
     ('s3-scope-leak-on-error-path', 'S3', 'mir', 'text_macro_usage:unbalanced', [(CD,
         '    let b = text_macro_identifier(s);\n    end_keywords();\n    let (s, b) = b?;', '    let (s, b) = text_macro_identifier(s)?;\n    end_keywords();', 1)]),
+    ('s4-pop-result-observed', 'S4', 'mir', 'observed-by:end_keywords', [(PARSER + 'utils.rs',
+        'pub(crate) fn end_keywords() {\n    CURRENT_VERSION.with(|current_version| {\n        current_version.borrow_mut().pop();\n    });\n}',
+        'pub(crate) fn end_keywords() -> bool {\n    CURRENT_VERSION.with(|current_version| current_version.borrow_mut().pop().is_some())\n}', 1)]),
     ('s5-shared-counter', 'S5', 'mir', 'shared-static', [(PARSER + 'lib.rs', 'fn init() {\n', 'static CALLS: std::sync::atomic::AtomicUsize = std::sync::atomic::AtomicUsize::new(0);\n\nfn init() {\n    CALLS.fetch_add(1, std::sync::atomic::Ordering::Relaxed);\n', 1)]),
     ('s6-parser-called-under-borrow', 'S6', 'mir', 'with-closure-calls-parser', [(PARSER + 'utils.rs',
         'pub(crate) fn in_directive() -> bool {\n    IN_DIRECTIVE.with(|x| x.borrow().last().is_some())', 'pub(crate) fn in_directive() -> bool {\n    IN_DIRECTIVE.with(|x| x.borrow().last().is_some() && current_version().is_none())', 1)]),
